@@ -91,14 +91,20 @@ func builtinNumberToExponential(call FunctionCall) Value {
 	if call.This.IsNaN() {
 		return stringValue("NaN")
 	}
+	number := call.This.float64()
 	precision := float64(-1)
-	if value := call.Argument(0); value.IsDefined() {
-		precision = toIntegerFloat(value)
-		if 0 > precision {
-			panic(call.runtime.panicRangeError("toString() radix must be between 2 and 36"))
-		}
+	fractionDigits := call.Argument(0)
+	if fractionDigits.IsDefined() {
+		precision = toIntegerFloat(fractionDigits)
 	}
-	return stringValue(strconv.FormatFloat(call.This.float64(), 'e', int(precision), 64))
+	if math.IsInf(number, 0) {
+		// ES5 15.7.4.6 step 6, before the range check of step 7.
+		return stringValue(floatToString(number, 64))
+	}
+	if fractionDigits.IsDefined() && 0 > precision {
+		panic(call.runtime.panicRangeError("toString() radix must be between 2 and 36"))
+	}
+	return stringValue(strconv.FormatFloat(number, 'e', int(precision), 64))
 }
 
 func builtinNumberToPrecision(call FunctionCall) Value {
@@ -109,11 +115,16 @@ func builtinNumberToPrecision(call FunctionCall) Value {
 	if value.IsUndefined() {
 		return stringValue(call.This.string())
 	}
+	number := call.This.float64()
 	precision := toIntegerFloat(value)
+	if math.IsInf(number, 0) {
+		// ES5 15.7.4.7 step 7, before the range check of step 8.
+		return stringValue(floatToString(number, 64))
+	}
 	if 1 > precision {
 		panic(call.runtime.panicRangeError("toPrecision() precision must be greater than 1"))
 	}
-	return stringValue(strconv.FormatFloat(call.This.float64(), 'g', int(precision), 64))
+	return stringValue(strconv.FormatFloat(number, 'g', int(precision), 64))
 }
 
 func builtinNumberIsNaN(call FunctionCall) Value {
